@@ -186,6 +186,16 @@ type c05Chain struct {
 	Wrapper    bool // a buffering middleware: replaces c.Resp, replays status (default 200) and body after Next()
 	FailWrites bool // the client is gone: the first body write at the underlying writer fails
 	Timeout    bool // pkg/handlers.Timeout(1h) in front of everything: its deadline never passes
+	// the route has a path variable and the router caches matched dynamic routes; the checked
+	// request repeats an earlier one, so it is served from the cache
+	CachedDynamic bool
+}
+
+func (cc c05Chain) reqPath() string {
+	if cc.CachedDynamic {
+		return "/g/x/7"
+	}
+	return "/g/x"
 }
 
 // c05Buffer is what a buffering/compressing middleware puts into c.Resp.
@@ -213,11 +223,16 @@ func (cc c05Chain) describe() any {
 	for i, h := range cc.Chain {
 		ss[i] = h.String()
 	}
-	return map[string]any{"recover_middleware_first": cc.Recover, "buffering_middleware_first": cc.Wrapper, "first_body_write_fails": cc.FailWrites, "timeout_middleware_first(1h)": cc.Timeout, "chain": ss, "global": cc.NGlobal, "group": cc.NGroup, "route": len(cc.Chain) - 1 - cc.NGlobal - cc.NGroup, "total_handlers": len(cc.Chain)}
+	return map[string]any{"recover_middleware_first": cc.Recover, "buffering_middleware_first": cc.Wrapper, "first_body_write_fails": cc.FailWrites, "timeout_middleware_first(1h)": cc.Timeout, "chain": ss, "global": cc.NGlobal, "group": cc.NGroup, "route": len(cc.Chain) - 1 - cc.NGlobal - cc.NGroup, "total_handlers": len(cc.Chain), "dynamic_route_served_from_the_route_cache": cc.CachedDynamic}
 }
 
 func (cc c05Chain) build() *rux.Router {
 	r := rux.New()
+	rpath := "/x"
+	if cc.CachedDynamic {
+		r = rux.New(rux.EnableCaching)
+		rpath = "/x/{id}"
+	}
 	hs := make([]rux.HandlerFunc, len(cc.Chain))
 	for i, h := range cc.Chain {
 		hs[i] = h.handler()
@@ -275,11 +290,11 @@ func (cc c05Chain) build() *rux.Router {
 	routeMW := hs[g+q : n-1]
 	reg := func() {
 		if len(routeMW)%2 == 0 {
-			r.GET("/x", main, routeMW...)
+			r.GET(rpath, main, routeMW...)
 		} else {
 			// half through the variadic argument, half through a later Route.Use
 			k := len(routeMW) / 2
-			r.GET("/x", main, routeMW[:k]...).Use(routeMW[k:]...)
+			r.GET(rpath, main, routeMW[:k]...).Use(routeMW[k:]...)
 		}
 	}
 	if q > 0 {
@@ -291,7 +306,7 @@ func (cc c05Chain) build() *rux.Router {
 }
 
 func runC05(e *Env) {
-	e.Rule = "chains global+group+route middleware+main built through Use (one or several calls), Group middleware, variadic route middleware and Route.Use; exhaustive: every chain length 1..L (L=7 quick, 9 thorough) x every position of the aborting handler x {Abort, AbortThen, AbortWithStatus(code), AbortWithStatus(code,msg), code incl. 200, optionally after the first handler recorded another status without committing} x abort before/after/without its own Next() x extra Next() after the abort x every subset of the other handlers calling/not calling Next() x body byte written before the abort or not; sampled: long chains with totals around 31..33, 61..66 and 126..140 (beyond 63 through global middleware) and random behaviours (incl. double Next); after every aborted request a second request on the same router in which nobody aborts. Observed: enter/leave/abort events and IsAborted() sampled at entry, before/after the abort call and at leave of every handler, status/body at the recording writer. Oracle: specification-level interpreter of Next/Abort. Non-trivial: every case (each has an abort); distinct by chain description. Sampled chains may run behind an uninstrumented recover middleware and/or a buffering middleware that replaced c.Resp, or on a writer whose first body write fails, or behind pkg/handlers.Timeout(1h). Part unroutable: a global middleware aborts a request that only the router's built-in 404/405 answer would serve (that answer must not run). Part mounted: the chain ends in a rux sub-router / HandlerFunc mounted through WrapH (it records a status or nothing, writes nothing, may abort its own context) and a middleware aborts with a status after its Next(). Re-dispatch part: a handler hands the context to the router again (HandleContext) and a handler of that inner chain aborts; then, on the same router, a request aborts in a middleware and the router serves another request inside that middleware before the first goes on (its abort must stand, it must keep its own context); and a handler that calls AbortWithStatus and then re-dispatches to a route that only writes a body (the status stands). Parts debug-mode / debug-mode-mounted: short plans of the same generator and the mounted part with rux.Debug(true) (one worker; the switch is process-wide): the trace output must not change what an abort does."
+	e.Rule = "chains global+group+route middleware+main built through Use (one or several calls), Group middleware, variadic route middleware and Route.Use; exhaustive: every chain length 1..L (L=7 quick, 9 thorough) x every position of the aborting handler x {Abort, AbortThen, AbortWithStatus(code), AbortWithStatus(code,msg), code incl. 200, optionally after the first handler recorded another status without committing} x abort before/after/without its own Next() x extra Next() after the abort x every subset of the other handlers calling/not calling Next() x body byte written before the abort or not; sampled: long chains with totals around 31..33, 61..66 and 126..140 (beyond 63 through global middleware) and random behaviours (incl. double Next); after every aborted request a second request on the same router in which nobody aborts. Observed: enter/leave/abort events and IsAborted() sampled at entry, before/after the abort call and at leave of every handler, status/body at the recording writer. Oracle: specification-level interpreter of Next/Abort. Non-trivial: every case (each has an abort); distinct by chain description. Sampled chains may run behind an uninstrumented recover middleware and/or a buffering middleware that replaced c.Resp, or on a writer whose first body write fails, or behind pkg/handlers.Timeout(1h). Part unroutable: a global middleware aborts a request that only the router's built-in 404/405 answer would serve (that answer must not run). Part mounted: the chain ends in a rux sub-router / HandlerFunc mounted through WrapH (it records a status or nothing, writes nothing, may abort its own context) and a middleware aborts with a status after its Next(). Re-dispatch part: a handler hands the context to the router again (HandleContext) and a handler of that inner chain aborts; then, on the same router, a request aborts in a middleware and the router serves another request inside that middleware before the first goes on (its abort must stand, it must keep its own context); and a handler that calls AbortWithStatus and then re-dispatches to a route that only writes a body (the status stands). Parts debug-mode / debug-mode-mounted: short plans of the same generator and the mounted part with rux.Debug(true) (one worker; the switch is process-wide): the trace output must not change what an abort does. A quarter of the chains hang on a route with a path variable of a router with the route cache on, and the checked request repeats an earlier URL (served from the cache): the aborting middleware is still there."
 	e.Assumptions = []string{
 		"a route's own chain (group + route middleware + main handler) stays within the registration limit of 63; global middleware, which that limit does not count, makes executed chains of up to 140 entries",
 	}
@@ -475,6 +490,7 @@ func runC05(e *Env) {
 }
 
 func c05Check(t *T, cc c05Chain) {
+	cc.CachedDynamic = t.R.IntN(4) == 0
 	t.Describe(cc.describe)
 	var router *rux.Router
 	if pv, panicked := catch(func() { router = cc.build() }); panicked {
@@ -488,7 +504,14 @@ func c05Check(t *T, cc c05Chain) {
 	if cc.FailWrites {
 		rec.FailAt, rec.Short = 1, 0
 	}
-	pv, panicked := catch(func() { router.ServeHTTP(rec, NewReq("GET", "/g/x")) })
+	if cc.CachedDynamic {
+		// the same URL was asked for before (by a request in which nobody aborts)
+		warm := NewReq("GET", cc.reqPath())
+		warm.Header.Set("X-NoAbort", "1")
+		_, _ = catch(func() { router.ServeHTTP(NewRec(), warm) })
+		t.Count("chains.dynamic_route_served_from_the_route_cache", 1)
+	}
+	pv, panicked := catch(func() { router.ServeHTTP(rec, NewReq("GET", cc.reqPath())) })
 	if panicked {
 		t.Fail("servehttp-panic", "ServeHTTP panicked: %v", pv)
 		return
@@ -590,7 +613,7 @@ func c05Check(t *T, cc c05Chain) {
 		}
 		spec2 := &specRun{chain: chain2}
 		spec2.Next()
-		req2 := NewReq("GET", "/g/x")
+		req2 := NewReq("GET", cc.reqPath())
 		req2.Header.Set("X-NoAbort", "1")
 		rec2, pv2, panicked2 := Serve(router, req2)
 		if panicked2 {
